@@ -59,6 +59,35 @@ def compare_headers(ctx, sgz, src_view, mode, desc, hyp):
                         return
 
 
+MODEL = {}
+
+
+def table_correspondence(ctx, out, src, desc):
+    """K: Model/Headers.classify vs the table the real converter wrote (heuristic mode): rows, stored fields (footer
+    order) and array count, from the first and last trace header of the source"""
+    m = MODEL.get('m')
+    if m is None or not src['headers'] or src['header_idx'][0] != 0 or src['header_idx'][-1] != src['tracecount'] - 1:
+        return
+    import struct
+    first, last = src['headers'][0], src['headers'][-1]
+    req = 'hwtable ' + ' '.join(str(first[c]) for c in spec.FIELDS) + ' | ' + ' '.join(str(last[c]) for c in spec.FIELDS)
+    ctx.stats['corr_requests'] += 1
+    ans = m.ask(req)
+    raw = open(out, 'rb').read(2048)
+    rows, stored = [], []
+    for i in range(89):
+        code, const, dup = struct.unpack('<iii', raw[980 + 12 * i: 992 + 12 * i])
+        if code != spec.FIELDS[i]:
+            rows.append(f'?{code}')
+            continue
+        rows.append(f'{const}:{spec.FIELDS.index(dup) + 1 if dup in spec.FIELDS else (0 if dup == 0 else -1)}')
+    n_arrays = struct.unpack('<I', raw[64:68])[0]
+    h = spec.read_header(out)[0]
+    real = f"{' '.join(rows)} | {' '.join(str(spec.FIELDS.index(c)) for c in h.stored)} | {n_arrays}"
+    if ans != real:
+        ctx.corr_fail('Model.Headers/classify', req[:200], ans[:300], real[:300], desc)
+
+
 def segy_route(ctx, rng, k):
     kind = ['regular', 'regular', 'irregular', '2d', 'regular'][k % 5]
     tc = int(rng.choice([2, 5, 25, 127, 128, 129, 256, 30]))
@@ -116,6 +145,8 @@ def segy_route(ctx, rng, k):
             continue
         for p in spec.conformance_problems(out):
             ctx.fail('written file not conformant: ' + p, desc)
+        if mode == 'heuristic' and kind != 'irregular':
+            table_correspondence(ctx, out, src, desc)
         try:
             compare_headers(ctx, out, src, mode, desc, hyp)
         except Exception as e:  # noqa
@@ -174,6 +205,14 @@ def numpy_route(ctx, rng, k):
 
 
 def run(ctx):
+    MODEL['m'] = core.Model()
+    try:
+        run_(ctx)
+    finally:
+        MODEL.pop('m').close()
+
+
+def run_(ctx):
     rng = gen.rng_for(ctx.seed, 'c04')
     for k in range(28 if ctx.quick else 500):
         segy_route(ctx, rng, k)
